@@ -7,3 +7,25 @@ mod tasks;
 pub use event::{Event, ProcessorError, ProcessorStatus};
 pub(crate) use pipeline::Pipeline;
 pub(crate) use tasks::TaskTracker;
+
+/// Verification-only access to the task tracker and pipeline (see `tasks::verif`).
+#[cfg(p2panda_p2panda_verif)]
+pub mod verif {
+    pub use super::pipeline::Pipeline;
+    pub use super::tasks::verif::{PointFn, PointFuture, set_schedule_point};
+    pub use super::tasks::{Task, TaskTracker};
+
+    /// Public wrapper around the crate-private `Event::new`.
+    pub fn new_event<L, E, TP>(
+        operation: p2panda_core::Operation<E>,
+        log_id: L,
+        topic: TP,
+        prune_flag: p2panda_core::PruneFlag,
+    ) -> super::Event<L, E, TP>
+    where
+        L: p2panda_core::LogId,
+        TP: Clone,
+    {
+        super::Event::new(operation, log_id, topic, prune_flag)
+    }
+}
